@@ -3,6 +3,7 @@ package drive
 import (
 	"bytes"
 	"compress/gzip"
+	"context"
 	"crypto/md5"
 	"encoding/json"
 	"fmt"
@@ -14,6 +15,7 @@ import (
 	"strconv"
 	"strings"
 	"sync"
+	"sync/atomic"
 	"time"
 )
 
@@ -28,6 +30,34 @@ type Client struct {
 
 	// PagedSizes: every Dump additionally lists each bucket with these maxResults values, following the token chain.
 	PagedSizes []int
+
+	// MutWatchdog > 0: PATCH, DELETE, compose and rewrite requests get this (shorter) watchdog instead of the general
+	// one. Those requests carry bodies of a few hundred bytes at most, so how long they take does not depend on payloads.
+	MutWatchdog time.Duration
+	// FailFast: once a request was not answered within its watchdog the server counts as wedged; every later request on
+	// this client fails at once (Resp.Skipped) instead of waiting for the watchdog again.
+	FailFast bool
+
+	unanswered      atomic.Int64
+	firstUnanswered atomic.Value // string
+}
+
+// Watchdog is the general bound on one request (headers and body of the response included). A request that gets no
+// answer within its watchdog is reported by the callers as "not answered": Resp.Unanswered holds the bound.
+const Watchdog = 60 * time.Second
+
+// Guard switches on the shorter watchdog for PATCH / DELETE / compose / rewrite requests and fail-fast behaviour.
+func (c *Client) Guard(mut time.Duration) {
+	c.MutWatchdog, c.FailFast = mut, true
+}
+
+// Unanswered is the number of requests on this client that got no answer within their watchdog.
+func (c *Client) Unanswered() int64 { return c.unanswered.Load() }
+
+// FirstUnanswered describes the first such request ("" if there was none).
+func (c *Client) FirstUnanswered() string {
+	s, _ := c.firstUnanswered.Load().(string)
+	return s
 }
 
 // Resp is a complete response (body read to the end).
@@ -36,6 +66,10 @@ type Resp struct {
 	Header http.Header
 	Body   []byte
 	Err    string // transport error (no response)
+	// Unanswered > 0: the request was sent and no (complete) response arrived within this watchdog.
+	Unanswered time.Duration
+	// Skipped: the request was not sent because an earlier request on this client went unanswered (Client.FailFast).
+	Skipped bool
 }
 
 func NewClient(base string) *Client {
@@ -69,13 +103,30 @@ func (c *Client) count(k string) {
 	c.mu.Unlock()
 }
 
-// Do sends one request. target is the already escaped path + query.
+// Do sends one request under the general watchdog. target is the already escaped path + query.
 func (c *Client) Do(method, target string, hdr [][2]string, body []byte) *Resp {
+	return c.do(Watchdog, method, target, hdr, body)
+}
+
+// doMut sends a request whose duration does not depend on payload sizes (PATCH, DELETE, compose, rewrite).
+func (c *Client) doMut(method, target string, hdr [][2]string, body []byte) *Resp {
+	if c.MutWatchdog > 0 {
+		return c.do(c.MutWatchdog, method, target, hdr, body)
+	}
+	return c.do(Watchdog, method, target, hdr, body)
+}
+
+func (c *Client) do(watchdog time.Duration, method, target string, hdr [][2]string, body []byte) *Resp {
+	if c.FailFast && c.unanswered.Load() > 0 {
+		return &Resp{Skipped: true, Err: "not sent: an earlier request to this server got no answer (" + c.FirstUnanswered() + ")"}
+	}
 	var rd io.Reader
 	if body != nil {
 		rd = bytes.NewReader(body)
 	}
-	req, err := http.NewRequest(method, c.Base+target, rd)
+	ctx, cancel := context.WithTimeout(context.Background(), watchdog)
+	defer cancel()
+	req, err := http.NewRequestWithContext(ctx, method, c.Base+target, rd)
 	if err != nil {
 		return &Resp{Err: "bad request: " + err.Error()}
 	}
@@ -83,15 +134,36 @@ func (c *Client) Do(method, target string, hdr [][2]string, body []byte) *Resp {
 		req.Header.Set(h[0], h[1])
 	}
 	c.count("requests")
+	unanswered := func(status int) *Resp {
+		t := target
+		if len(t) > 300 {
+			t = t[:300] + "..."
+		}
+		msg := fmt.Sprintf("request not answered within %s: %s %s", watchdog, method, t)
+		if status != 0 {
+			msg += fmt.Sprintf(" (status line %d arrived, the body did not end)", status)
+		}
+		if c.unanswered.Add(1) == 1 {
+			c.firstUnanswered.Store(msg)
+		}
+		c.count("requests_not_answered_within_watchdog")
+		return &Resp{Err: msg, Unanswered: watchdog}
+	}
 	rsp, err := c.hc.Do(req)
 	if err != nil {
 		c.count("transport_errors")
+		if ctx.Err() == context.DeadlineExceeded {
+			return unanswered(0)
+		}
 		return &Resp{Err: err.Error()}
 	}
 	defer rsp.Body.Close()
 	b, err := io.ReadAll(rsp.Body)
 	if err != nil {
 		c.count("transport_errors")
+		if ctx.Err() == context.DeadlineExceeded {
+			return unanswered(rsp.StatusCode)
+		}
 		return &Resp{Status: rsp.StatusCode, Header: rsp.Header, Body: b, Err: "reading body: " + err.Error()}
 	}
 	c.count(fmt.Sprintf("responses_%dxx", rsp.StatusCode/100))
@@ -302,25 +374,25 @@ func ParseRange308(h string) (stored int64, ok bool) {
 }
 
 func (c *Client) Patch(b, n string, body []byte, q [][2]string) *Resp {
-	return c.Do("PATCH", ObjPath(b, n)+Query(q), [][2]string{{"Content-Type", "application/json"}}, body)
+	return c.doMut("PATCH", ObjPath(b, n)+Query(q), [][2]string{{"Content-Type", "application/json"}}, body)
 }
 
 func (c *Client) Delete(b, n string, q [][2]string) *Resp {
-	return c.Do("DELETE", ObjPath(b, n)+Query(q), nil, nil)
+	return c.doMut("DELETE", ObjPath(b, n)+Query(q), nil, nil)
 }
 
 func (c *Client) Compose(b, dst string, body []byte, q [][2]string) *Resp {
-	return c.Do("POST", ObjPath(b, dst)+"/compose"+Query(q), [][2]string{{"Content-Type", "application/json"}}, body)
+	return c.doMut("POST", ObjPath(b, dst)+"/compose"+Query(q), [][2]string{{"Content-Type", "application/json"}}, body)
 }
 
 func (c *Client) Rewrite(sb, sn, db, dn string) *Resp {
-	return c.Do("POST", ObjPath(sb, sn)+"/rewriteTo/b/"+esc(db)+"/o/"+esc(dn), [][2]string{{"Content-Type", "application/json"}}, []byte("{}"))
+	return c.doMut("POST", ObjPath(sb, sn)+"/rewriteTo/b/"+esc(db)+"/o/"+esc(dn), [][2]string{{"Content-Type", "application/json"}}, []byte("{}"))
 }
 
 // RewriteBody is Rewrite with a caller-supplied request body: the optional destination object resource of the
 // rewrite API (clients that read-modify-write send a full resource here, output-only fields included).
 func (c *Client) RewriteBody(sb, sn, db, dn string, body []byte) *Resp {
-	return c.Do("POST", ObjPath(sb, sn)+"/rewriteTo/b/"+esc(db)+"/o/"+esc(dn), [][2]string{{"Content-Type", "application/json"}}, body)
+	return c.doMut("POST", ObjPath(sb, sn)+"/rewriteTo/b/"+esc(db)+"/o/"+esc(dn), [][2]string{{"Content-Type", "application/json"}}, body)
 }
 
 func (c *Client) GetMeta(b, n string) *Resp { return c.Do("GET", ObjPath(b, n), nil, nil) }
